@@ -156,7 +156,8 @@ def renderArm (anyName eventEnum : Name) (a : Arm) : List Tok :=
   w "HD" "{ Ok ( new_machine ) =>" ++ nm "HD" anyName ++ w "HD" "::" ++ nm "HD" a.okVariant ++
   w "HD" "( new_machine ) , Err ( ( old_machine , err ) ) => { self . inner = :: core :: option :: Option :: Some (" ++
   nm "HD" anyName ++ w "HD" "::" ++ nm "HD" a.errVariant ++
-  w "HD" "( old_machine ) ) ; return Err ( state_machines :: DynamicError :: from_guard_error ( err ) ) ; } } }"
+  w "HD" "( old_machine ) ) ; return Err ( match state_machines :: DynamicError :: from_guard_error ( err ) { state_machines :: DynamicError :: InvalidTransition { event , . . } => { state_machines :: DynamicError :: invalid_transition (" ++
+  strLit "HD" a.errFrom ++ w "HD" ", event ) } other => other , } ) ; } } }"
 
 def renderDynAcc (anyName : Name) (a : DynAcc) : List Tok :=
   -- read
